@@ -119,7 +119,7 @@ def check_tables(chk):
     live = sorted([ord(k), ord(v)] for k, v in Emitter.ESCAPE_REPLACEMENTS.items())
     chk.case("tables", key="ESCAPE_REPLACEMENTS", nontrivial=True, sample={"live": live})
     if sorted(table) != live:
-        chk.disagreement("tables:ESCAPE_REPLACEMENTS", "yaml.emitter.Emitter.ESCAPE_REPLACEMENTS", sorted(table), live)
+        chk.disagreement("tables", "yaml.emitter.Emitter.ESCAPE_REPLACEMENTS", sorted(table), live)
 
 
 # ---- VCR cassette -------------------------------------------------------------------------------------------------
@@ -335,7 +335,7 @@ def vcr_judge(chk, mechanism, recorders, feds, preserve, variant, argv=None, san
         # ---- the writer must not die -----------------------------------------------------------------------------
         if not sanitize and bool(res[ri * step]["raises"]) != (exc is not None) and variant == "asFound" and \
                 not (exc is None and undecodable and not preserve):      # a repaired charset fallback is fine
-            chk.disagreement(f"{mechanism}:raises", key, res[ri * step]["raises"], repr(exc))
+            chk.disagreement(mechanism, {"aspect": "raises", **key}, res[ri * step]["raises"], repr(exc))
         if exc is not None:
             if isinstance(exc, LookupError) and undecodable and not preserve:
                 chk.violation(KF_CHARSET, "vcr_writer raises LookupError (the writer thread dies, the cassette is truncated) "
@@ -605,7 +605,7 @@ def har_judge(chk, mechanism, recorders, feds, preserve, variant):
                                      ("Location", "redirectURL", rs.get("redirectURL", ""))):
                 m = res[(ri, cid, name)]
                 if from_cps(m[variant]) != got:
-                    chk.disagreement(f"{mechanism}:{field}", {"headers": W.wire_headers(f["orig_headers"]), "name": name},
+                    chk.disagreement(mechanism, {"aspect": field, "headers": W.wire_headers(f["orig_headers"]), "name": name},
                                      from_cps(m[variant]), got)
                 exp = lowered.get(name.lower(), [""])[0]
                 chk.feature(f"har:{field}:{'present' if name.lower() in lowered else 'absent'}")
@@ -779,11 +779,15 @@ def junit_judge(chk, mechanism, hists, variant, on_protocol=True, body=b"ok", su
                      sample={"events": len(hist), "crash": None if crash is None else [crash[0], repr(crash[1])]})
             chk.feature(f"junit:{'crash' if crash else 'ok'}")
             # ---- correspondence: crash point, unique-failure bookkeeping, test-case structure
-            impl_crash = None if crash is None else crash[0]
-            if crash is not None and not isinstance(crash[1], KeyError):
-                impl_crash = None if m["crash_at"] is None else "other"
-            if impl_crash != m["crash_at"] and not (crash is not None and not isinstance(crash[1], KeyError) and m["crash_at"] is None):
-                chk.disagreement(f"{mechanism}:crash_at", wire, m["crash_at"], None if crash is None else [crash[0], repr(crash[1])])
+            if crash is None:
+                differs = m["crash_at"] is not None
+            elif isinstance(crash[1], KeyError):
+                differs = m["crash_at"] != crash[0]
+            else:       # a crash the state-machine model does not describe: comparable on the prefix before it only
+                differs = m["crash_at"] is not None and m["crash_at"] < crash[0]
+            if differs:
+                chk.disagreement(mechanism, {"aspect": "crash_at", "events": wire}, m["crash_at"],
+                                 None if crash is None else [crash[0], repr(crash[1])])
             if crash is None or isinstance(crash[1], KeyError):
                 stat = {"failures": [[LABELS.index(l), [[ids[c], len(g.failures)] for c, g in gs.items()]]
                                      for l, gs in ctx.statistic.failures.items()],
@@ -791,9 +795,10 @@ def junit_judge(chk, mechanism, hists, variant, on_protocol=True, body=b"ok", su
                 mstat = {"failures": [[l, [[c, len(fs)] for c, fs in gs]] for l, gs in m["stat"]["failures"]],
                          "unique": sorted(c for _, c in m["stat"]["unique"])}
                 if stat != mstat:
-                    chk.disagreement(f"{mechanism}:Statistic", wire, mstat, stat)
+                    chk.disagreement(mechanism, {"aspect": "Statistic", "events": wire}, mstat, stat)
                 if crash is None and junit_observe(h, ids) != junit_model_observe(m["cases"]):
-                    chk.disagreement(f"{mechanism}:test_cases", wire, junit_model_observe(m["cases"]), junit_observe(h, ids))
+                    chk.disagreement(mechanism, {"aspect": "test_cases", "events": wire}, junit_model_observe(m["cases"]),
+                                     junit_observe(h, ids))
             # ---- replay: the property on the implementation
             if crash is not None:
                 i, e = crash
@@ -955,8 +960,36 @@ def witness_recorders():
 
 def run(chk):
     rng = chk.rng
-    chk.proved += ["dq_roundtrip (decodeDQ (writeDQ s ++ rest) = (s, rest) for every code-point string)",
-                   "dq_output_inline (only printable non-break characters are emitted)"]
+    chk.proved += [
+        "dq_roundtrip / dq_output_inline / dq_none: write_double_quoted is a lossless single-line YAML double-quoted scalar for "
+        "every code-point string (lone surrogates, astral, C0/C1 included)",
+        "json_roundtrip / json_output_ascii: the json.dumps sites (header values, reason phrase) are lossless for all BMP text; "
+        "json_astral_full_false: not beyond",
+        "sq_asFound_roundtrip_partial + sq_asFound_full_false (witness it's); sq_repaired_roundtrip",
+        "b64_roundtrip: preserve-bytes payloads decode to exactly the bytes",
+        "vcr_line_parses + vcr_entry_wellformed: every interaction written by the repaired writer splits into its lines and reads "
+        "back as exactly the recorded id/status/metadata/checks/URI/method/headers/bodies/response (both body modes)",
+        "vcr_exactly_once: one top-level item per delivered interaction, in order (both variants)",
+        "vcr_meta_none_full_false: as found every interaction with meta=None has a line that is in no YAML grammar",
+        "vcr_writer_raises: as found the writer dies exactly on unknown charsets in text mode; the repaired writer never",
+        "status_spec: ERROR / SKIP / FAILURE / SUCCESS folding of the status scalar",
+        "junit_asFound_keyerror + junit_asFound_full_false (witness history); junit_asFound_total_partial (histories where every "
+        "FAILURE scenario brings a fresh failure or an already-failing label); junit_repaired_total (all histories); "
+        "junit_failure_recorded",
+        "har_asFound_always_empty (response mimeType / redirectURL / cookies look-ups are empty for every response); "
+        "har_repaired_finds"]
+    chk.partial += [
+        "the full VCR theorem is about the repaired writer; as found only the per-site partial theorems and the witnesses hold",
+        "the repr() site (check message) is modelled for ASCII titles only; wider titles are judged by replay (PyYAML) only",
+        "HAR: only the response-header look-ups are modelled; all other HAR fields are compared by replay against json.load",
+        "writer thread / queue / 1 s join timeout are runtime behaviour: FIFO exactly-once is proved on the model "
+        "(renderCassette, vcr_exactly_once) and sampled on the real CassetteWriter thread",
+        "write_double_quoted's run-flushing loop is modelled as its character-wise concatenation (validated by correspondence)"]
+    chk.sampled_only += [
+        "bytes.decode(codec, 'replace') (CPython): losslessness of UTF-8 body text is checked on generated bodies, not proved",
+        "junit-xml / minidom / harfile serialisation: every produced file is re-parsed with xml.etree / json",
+        "sanitize_output=True: well-formedness of the cassette only (what is masked belongs to C15)",
+        "Request.from_prepared_request / Response field extraction: compared with the PreparedRequest / Response that was fed in"]
     chk.assumptions += ["PyYAML's reader/scanner is the reference for the YAML 1.1 flow-scalar grammar of SV/Spec/C16.lean "
                         "(differentially compared on every generated text)",
                         "harfile and junit-xml serialise whatever text they are given (checked by re-parsing every produced file)",
